@@ -37,6 +37,8 @@ def shape_str(t):
         return "%s %s. %s" % (k, ",".join(n for n, _ in t[1]), shape_str(t[2]))
     if k == "const":
         return "const:" + t[1]
+    if k == "fun":
+        return "%s(%s)" % (t[1], ", ".join(shape_str(x) for x in t[4:]))
     return "%s(%s)" % (k, ", ".join(shape_str(x) for x in t[1:]))
 
 
